@@ -94,6 +94,86 @@ B=[
 			return c.consensus.IsTrustedPeer(c.ctx, pid)
 		}
 		return false'''),
+ ('B24-logpin-enqueue-helper','consensus/crdt/consensus.go',
+  '''	if css.config.batchingEnabled() {
+		select {
+		case css.batchItemCh <- batchItem{
+			ctx:   ctx,
+			isPin: true,
+			pin:   pin,
+		}:
+			return nil
+		default:
+			return fmt.Errorf("error pinning: %w", ErrMaxQueueSizeReached)
+		}
+	}
+
+	return css.state.Add(ctx, pin)''','''	if css.config.batchingEnabled() {
+		item := batchItem{ctx: ctx, isPin: true, pin: pin}
+		select {
+		case css.batchItemCh <- item:
+		default:
+			return fmt.Errorf("error pinning: %w", ErrMaxQueueSizeReached)
+		}
+		return nil
+	}
+
+	return css.state.Add(ctx, pin)'''),
+ ('B29-discard-operands-swapped','api/types.go','	return !m.Valid || m.Expired()','	if m.Expired() {\n		return true\n	}\n	return !m.Valid'),
+ ('B30-track-switch-form','pintracker/stateless/stateless.go',
+  '''	if c.Type == api.MetaType {
+		return nil
+	}
+
+	// Trigger unpin whenever something remote is tracked
+	// Note, IPFSConn checks with pin/ls before triggering
+	// pin/rm.
+	if c.IsRemotePin(spt.peerID) {''','''	switch c.Type {
+	case api.MetaType:
+		return nil
+	}
+
+	// Trigger unpin whenever something remote is tracked
+	// Note, IPFSConn checks with pin/ls before triggering
+	// pin/rm.
+	if remote := c.IsRemotePin(spt.peerID); remote {'''),
+ ('B31-failed-reordered','monitor/metrics/checker.go',
+  '''	if !latest.Expired() {
+		return 0.0, nil, 0.0, false
+	}
+	// The latest metric has expired
+''','''	if expired := latest.Expired(); !expired {
+		return 0, nil, 0, false
+	}
+	// The latest metric has expired
+'''),
+ ('B32-unpin-error-branches-split','ipfsconn/ipfshttp/ipfshttp.go',
+  '''		ipfsErr, ok := err.(ipfsError)
+		if !ok ||
+			(ipfsErr.Message != dspinner.ErrNotPinned.Error() &&
+				ipfsErr.Message != ipldpinner.ErrNotPinned.Error()) {
+			return err
+		}
+		logger.Debug("IPFS object is already unpinned: ", hash)
+		return nil''','''		ipfsErr, ok := err.(ipfsError)
+		if !ok {
+			return err
+		}
+		switch ipfsErr.Message {
+		case dspinner.ErrNotPinned.Error(), ipldpinner.ErrNotPinned.Error():
+			logger.Debug("IPFS object is already unpinned: ", hash)
+			return nil
+		}
+		return err'''),
+ ('B33-window-latest-defer-unlock','monitor/metrics/window.go',
+  '''	prevRing := mw.window.Prev()
+	mw.wMu.RUnlock()
+
+	last, ok = prevRing.Value.(*api.Metric)''','''	prevRing := mw.window.Prev()
+	v := prevRing.Value
+	mw.wMu.RUnlock()
+
+	last, ok = v.(*api.Metric)'''),
 ]
 os.makedirs(OUT,exist_ok=True)
 n=0
